@@ -90,3 +90,13 @@ claim("C12", "DESIGN.md §3 C04/C12",
       "THIN claim (that a dead verdict is right for all data is not decidable here). Decided: node/function/aggregator exhaustiveness (as C04); IsDead is set only in the four reference situations (failed canJoin, `unless on()` against an always-returning unconditional side, `or` after a side that cannot be empty, static comparison); calculateStaticReturn has a case for each of the vendored parser's six comparison operators and declares dead exactly under the negated comparison on (ls, rs), arithmetic cases never do; promql/impossible reports only IsDead sources.",
       SA_NOTE,
       "static analysis: operator-table agreement (Go comparison vs PromQL operator constant), context enumeration of IsDead stores, dominance on go/cfg")
+
+claim("C06", "DESIGN.md §3 C06",
+      "THIN claim (that NewPositionRange re-discovers the right bytes for every YAML scalar style is a function of the input bytes and is not decided). Decided, all necessary for carets to land on the reported text: every Diagnostic whose columns are sized by len(E.Value) carries E.Pos, and PromQL offsets are only ever paired with the Pos of a PromQL expression value; PromQL offsets are converted Start+1/End, End+1 only (and always) for ranges from an inclusive-end producer whose every return is inclusive; spans that start at column 1 end at len(value) (five sites end one short: known findings); line/column displacement and the source-line table are forwarded or additively re-based through every parser function down to AddOffset/NewPositionRange, with the roles anchored in the fields AddOffset adds them to; position writer and renderer both count bytes; parseRule folds every part's line and every field's last line into Rule.Lines.",
+      SA_NOTE,
+      "static analysis: composite-literal field agreement over the type-checked AST, producer classification by definitions, parameter-role propagation from sinks (fixpoint) with call-site checks, range-unit typing")
+
+claim("C19", "DESIGN.md §3 C19",
+      "THIN claim (the relational statement over all documents and the displacement arithmetic at the nested-YAML site are not decided). Decided: one rule constructor (parseRule) reached from exactly the relaxed descent and the strict wrapper; the strict wrapper passes its node and line table with zero displacement and returns parseRule's result unchanged or an error; Parse starts both modes with zero displacement and the content reader's line table read at each call; the strict group parser offers every element of `rules` to the wrapper; the relaxed descent visits every mapping value, every child and every recognised group's rules unconditionally and keeps every non-empty parseRule result; tryParseGroup's key loop reads no loop-carried state (key-order independence); both group parsers store each group key in the same Group field.",
+      SA_NOTE,
+      "static analysis: who-may-construct / who-may-call over the type-checked program, call-argument agreement, lexical-guard (unconditional-visit) checks, loop-carried read analysis, sibling switch-table agreement")
